@@ -39,6 +39,7 @@ func ptList(ps []s2.Point) string {
 func bits(p s2.Point) []string {
 	return []string{fmt.Sprintf("%x", math.Float64bits(p.X)), fmt.Sprintf("%x", math.Float64bits(p.Y)), fmt.Sprintf("%x", math.Float64bits(p.Z))}
 }
+
 // JSON cannot carry NaN/Inf
 func jf(x float64) interface{} {
 	if math.IsNaN(x) || math.IsInf(x, 0) {
@@ -655,72 +656,185 @@ func runPairs(c *vkit.Collector, rng *vkit.Rng, budget int) {
 		default:
 			b0, b1, _ = genEdge(rng)
 		}
-		key := fmt.Sprintf("%v|%v|%v|%v", bits(a0), bits(a1), bits(b0), bits(b1))
-		c.Class(fmt.Sprintf("pair mode %d", mode))
-		cr := s2.CrossingSign(a0, a1, b0, b1) == s2.Cross
-		nb0, nb1 := s2.Point{Vector: b0.Mul(-1)}, s2.Point{Vector: b1.Mul(-1)}
-		crn := s2.CrossingSign(a0, a1, nb0, nb1) == s2.Cross
-		A0, A1, B0, B1 := pt(a0), pt(a1), pt(b0), pt(b1)
-		c.Eval("pair "+key, true)
-		for _, lim := range []float64{math.Inf(1), 0, 1e-3, 4} {
-			d, ok := s2.VerifC17UpdateEdgePairMinDistance(a0, a1, b0, b1, s1.ChordAngle(lim))
-			c.Check(fmt.Sprintf("updateEdgePairMinDistance %s %v", key, lim), dbEq(vkit.App("m_updateEdgePairMinDistance", vkit.B(cr), A0, A1, B0, B1, vkit.F(lim)), d, ok))
-		}
-		for _, lim := range []float64{-1, 4, 3.5, 0} {
-			d, ok := s2.VerifC17UpdateEdgePairMaxDistance(a0, a1, b0, b1, s1.ChordAngle(lim))
-			c.Check(fmt.Sprintf("updateEdgePairMaxDistance %s %v", key, lim), dbEq(vkit.App("m_updateEdgePairMaxDistance", vkit.B(crn), A0, A1, B0, B1, vkit.F(lim)), d, ok))
-		}
-		pa, pb := s2.EdgePairClosestPoints(a0, a1, b0, b1)
-		var isect s2.Point
-		if cr {
-			isect = pa
-		}
-		c.Check("EdgePairClosestPoints "+key, vkit.App("pair_beq s2_Point_eqbits s2_Point_eqbits", vkit.App("m_EdgePairClosestPoints", vkit.B(cr), pt(isect), A0, A1, B0, B1), vkit.Pair(pt(pa), pt(pb))))
+		checkPair(c, a0, a1, b0, b1, fmt.Sprintf("pair mode %d", mode))
+	}
+	_ = inf
+	runPairConfigs(c, rng, budget)
+}
 
-		// [S] (vii)
-		d, ok := s2.VerifC17UpdateEdgePairMinDistance(a0, a1, b0, b1, inf)
-		R := rep("a0", a0, "a1", a1, "b0", b0, "b1", b1, "dist2", float64(d))
-		crosses, degen := exactCrossing(a0, a1, b0, b1)
-		shared := a0 == b0 || a0 == b1 || a1 == b0 || a1 == b1
-		if !ok {
-			c.Violate("EdgePair.flag", "edge pair distance from infinity did not update", R)
-		}
-		if shared && math.Float64bits(float64(d)) != 0 {
-			c.Violate("EdgePair.shared_vertex", "edges sharing a vertex are not at distance +0", R)
-		}
-		if !degen {
-			if crosses != (d == 0) {
-				c.Violate("EdgePair.zero_iff_cross", fmt.Sprintf("exact crossing=%v but distance=%v", crosses, float64(d)), R)
-			}
-			if !crosses {
-				// min of the four true vertex-edge distances
-				var best *big.Float
-				all := true
-				for _, q := range [][3]s2.Point{{a0, b0, b1}, {a1, b0, b1}, {b0, a0, a1}, {b1, a0, a1}} {
-					t, _, okq := trueSegDist(q[0].Vector, q[1].Vector, q[2].Vector)
-					if !okq {
-						all = false
-						break
-					}
-					if best == nil || t.Cmp(best) < 0 {
-						best = t
-					}
+// pairPoint is the point at longitude u and latitude h in the orthonormal frame (e1, e2, e3)
+func pairPoint(e1, e2, e3 r3.Vector, u, h float64) s2.Point {
+	return norm(comb(comb(e1, math.Cos(h)*math.Cos(u), e2, math.Cos(h)*math.Sin(u)), 1, e3, math.Sin(h)))
+}
+
+// runPairConfigs: the "which endpoint is closest" configurations. Edge A lies on the equator of a
+// random frame with half-length s; edge B starts at height ~0.1 s above A's interior and climbs to
+// 0.2-0.3 s, so that the global minimum is at one end of B against the interior of A while the other
+// end of B is still nearer to A than both ends of A are to B. All eight orders (both edges, both
+// endpoint orders) make each of the four probes of EdgePairClosestPoints the winning one, with a
+// later probe that would win against a stale running minimum.
+func runPairConfigs(c *vkit.Collector, rng *vkit.Rng, budget int) {
+	var cfgs [][4]s2.Point
+	// the two demo configurations of the seeded change C17-mut3
+	cfgs = append(cfgs,
+		[4]s2.Point{norm(r3.Vector{X: 1, Y: -1}), norm(r3.Vector{X: 1, Y: 1}), norm(r3.Vector{X: 1, Z: math.Tan(0.1)}), norm(r3.Vector{X: 1, Y: 0.05, Z: math.Tan(0.2)})},
+		[4]s2.Point{norm(r3.Vector{X: 1, Y: -1e-6}), norm(r3.Vector{X: 1, Y: 1e-6}), norm(r3.Vector{X: 1, Y: 1e-8, Z: 1e-7}), norm(r3.Vector{X: 1, Y: 2e-8, Z: 3e-7})})
+	for round := 0; round < budget; round++ {
+		for _, sc := range []float64{1e-9, 1e-7, 1e-5, 1e-3, 0.1, 1} {
+			for j := 0; j < 2; j++ {
+				e1 := randPoint(rng).Vector
+				e2 := tangentAt(rng, s2.Point{Vector: e1})
+				e3 := norm(crossv(e1, e2)).Vector
+				u0 := rng.Range(-0.3, 0.3) * sc
+				u1 := u0 + rng.Range(-0.1, 0.1)*sc
+				h0 := rng.Range(0.05, 0.15) * sc
+				h1 := h0 + rng.Range(0.05, 0.2)*sc
+				if j == 1 && rng.Bool() {
+					h0, h1 = -h0, -h1 // below the equator
 				}
-				if all {
-					bound := math.Max(s2.VerifC17MinUpdateDistanceMaxError(d), s2.VerifC17MinUpdateDistanceMaxError(s1.ChordAngle(f64(best))))
-					e := f64(babs(bsub(bf(float64(d)), best)))
-					track("max_error_over_bound(edge pair)", e/bound)
-					if e > bound*slack {
-						c.Violate("EdgePair.accuracy", fmt.Sprintf("edge pair distance off by %.3g > %.3g", e, bound), R)
-					}
-					// closest points realise it
-					e1 := f64(babs(bsub(vangle(unitOf(pa.Vector), unitOf(pb.Vector)), angleOfChord2(best))))
-					e2 := f64(babs(bsub(vnorm2(vsub(unitOf(pa.Vector), unitOf(pb.Vector))), best)))
-					if e1 > 1e-14 && e2 > 3e-15 {
-						c.Violate("EdgePairClosestPoints.distance", fmt.Sprintf("closest points are %.3g rad off the true edge-pair distance", e1), R)
-					}
+				cfgs = append(cfgs, [4]s2.Point{pairPoint(e1, e2, e3, -sc, 0), pairPoint(e1, e2, e3, sc, 0), pairPoint(e1, e2, e3, u0, h0), pairPoint(e1, e2, e3, u1, h1)})
+			}
+		}
+	}
+	for _, q := range cfgs {
+		a0, a1, b0, b1 := q[0], q[1], q[2], q[3]
+		for v := 0; v < 8; v++ {
+			p0, p1, q0, q1 := a0, a1, b0, b1
+			if v&1 != 0 {
+				p0, p1 = p1, p0
+			}
+			if v&2 != 0 {
+				q0, q1 = q1, q0
+			}
+			if v&4 != 0 {
+				p0, p1, q0, q1 = q0, q1, p0, p1
+			}
+			checkPair(c, p0, p1, q0, q1, fmt.Sprintf("pair config: near end of one edge over the interior of the other, order %d", v))
+		}
+	}
+}
+
+// onEdgeTol: how far from its edge a point returned by Project(x, e0, e1) may be (see checkTriple (iv))
+func onEdgeTol(x, e0, e1 s2.Point) float64 {
+	if e0 == e1 {
+		return 1e-14
+	}
+	X3, A3, B3 := unitOf(x.Vector), unitOf(e0.Vector), unitOf(e1.Vector)
+	r := f64(vangle(X3, vcross(A3, B3)))
+	rho := math.Min(r, math.Pi-r)
+	kappa := math.Max(1, 2/f64(vnorm(badd3(A3, B3))))
+	return 1e-14 + 1e-15*kappa*(1+1/rho)
+}
+
+func checkPair(c *vkit.Collector, a0, a1, b0, b1 s2.Point, class string) {
+	inf := s1.InfChordAngle()
+	key := fmt.Sprintf("%v|%v|%v|%v", bits(a0), bits(a1), bits(b0), bits(b1))
+	c.Class(class)
+	cr := s2.CrossingSign(a0, a1, b0, b1) == s2.Cross
+	nb0, nb1 := s2.Point{Vector: b0.Mul(-1)}, s2.Point{Vector: b1.Mul(-1)}
+	crn := s2.CrossingSign(a0, a1, nb0, nb1) == s2.Cross
+	A0, A1, B0, B1 := pt(a0), pt(a1), pt(b0), pt(b1)
+	c.Eval("pair "+key, true)
+	for _, lim := range []float64{math.Inf(1), 0, 1e-3, 4} {
+		d, ok := s2.VerifC17UpdateEdgePairMinDistance(a0, a1, b0, b1, s1.ChordAngle(lim))
+		c.Check(fmt.Sprintf("updateEdgePairMinDistance %s %v", key, lim), dbEq(vkit.App("m_updateEdgePairMinDistance", vkit.B(cr), A0, A1, B0, B1, vkit.F(lim)), d, ok))
+	}
+	for _, lim := range []float64{-1, 4, 3.5, 0} {
+		d, ok := s2.VerifC17UpdateEdgePairMaxDistance(a0, a1, b0, b1, s1.ChordAngle(lim))
+		c.Check(fmt.Sprintf("updateEdgePairMaxDistance %s %v", key, lim), dbEq(vkit.App("m_updateEdgePairMaxDistance", vkit.B(crn), A0, A1, B0, B1, vkit.F(lim)), d, ok))
+	}
+	pa, pb := s2.EdgePairClosestPoints(a0, a1, b0, b1)
+	var isect s2.Point
+	if cr {
+		isect = pa
+	}
+	c.Check("EdgePairClosestPoints "+key, vkit.App("pair_beq s2_Point_eqbits s2_Point_eqbits", vkit.App("m_EdgePairClosestPoints", vkit.B(cr), pt(isect), A0, A1, B0, B1), vkit.Pair(pt(pa), pt(pb))))
+
+	// [S] (vii)
+	d, ok := s2.VerifC17UpdateEdgePairMinDistance(a0, a1, b0, b1, inf)
+	R := rep("a0", a0, "a1", a1, "b0", b0, "b1", b1, "dist2", float64(d))
+	crosses, degen := exactCrossing(a0, a1, b0, b1)
+	shared := a0 == b0 || a0 == b1 || a1 == b0 || a1 == b1
+	if !ok {
+		c.Violate("EdgePair.flag", "edge pair distance from infinity did not update", R)
+	}
+	if shared && math.Float64bits(float64(d)) != 0 {
+		c.Violate("EdgePair.shared_vertex", "edges sharing a vertex are not at distance +0", R)
+	}
+	if !degen {
+		if crosses != (d == 0) {
+			c.Violate("EdgePair.zero_iff_cross", fmt.Sprintf("exact crossing=%v but distance=%v", crosses, float64(d)), R)
+		}
+		if !crosses {
+			// min of the four true vertex-edge distances
+			var best *big.Float
+			all := true
+			for _, q := range [][3]s2.Point{{a0, b0, b1}, {a1, b0, b1}, {b0, a0, a1}, {b1, a0, a1}} {
+				t, _, okq := trueSegDist(q[0].Vector, q[1].Vector, q[2].Vector)
+				if !okq {
+					all = false
+					break
+				}
+				if best == nil || t.Cmp(best) < 0 {
+					best = t
 				}
 			}
+			if all {
+				bound := math.Max(s2.VerifC17MinUpdateDistanceMaxError(d), s2.VerifC17MinUpdateDistanceMaxError(s1.ChordAngle(f64(best))))
+				e := f64(babs(bsub(bf(float64(d)), best)))
+				track("max_error_over_bound(edge pair)", e/bound)
+				if e > bound*slack {
+					c.Violate("EdgePair.accuracy", fmt.Sprintf("edge pair distance off by %.3g > %.3g", e, bound), R)
+				}
+				// closest points realise it
+				e1 := f64(babs(bsub(vangle(unitOf(pa.Vector), unitOf(pb.Vector)), angleOfChord2(best))))
+				e2 := f64(babs(bsub(vnorm2(vsub(unitOf(pa.Vector), unitOf(pb.Vector))), best)))
+				if e1 > 1e-14 && e2 > 3e-15 {
+					c.Violate("EdgePairClosestPoints.distance", fmt.Sprintf("closest points are %.3g rad off the true edge-pair distance", e1), R)
+				}
+			}
+		}
+	}
+	// ---- consistency of EdgePairClosestPoints with the reported edge-pair distance ----
+	if cr || degen {
+		return
+	}
+	PA, PB := unitOf(pa.Vector), unitOf(pb.Vector)
+	pc2 := vnorm2(vsub(PA, PB))
+	// each returned point lies on its edge
+	for side, q := range [][4]s2.Point{{pa, a0, a1, pb}, {pb, b0, b1, pa}} {
+		t, _, okq := trueSegDist(q[0].Vector, q[1].Vector, q[2].Vector)
+		if !okq {
+			return
+		}
+		off, tol := f64(angleOfChord2(t)), onEdgeTol(q[3], q[1], q[2])
+		if off > 1e-3 {
+			limited(c, "Project.pole_far_from_edge", fmt.Sprintf("EdgePairClosestPoints: returned point %d is %.3g rad away from its edge", side, off), R)
+			return
+		} else if off > tol {
+			c.Violate("EdgePairClosestPoints.on_edge", fmt.Sprintf("returned point %d is %.3g rad away from its edge (tolerance %.3g)", side, off, tol), R)
+		}
+	}
+	// the pair realises the distance reported by updateEdgePairMinDistance
+	bound := s2.VerifC17MinUpdateDistanceMaxError(d)
+	dAng := angleOfChord2(bf(float64(d)))
+	e1 := f64(babs(bsub(vangle(PA, PB), dAng)))
+	e2 := f64(babs(bsub(pc2, bf(float64(d)))))
+	ptol := math.Max(onEdgeTol(pa, b0, b1), onEdgeTol(pb, a0, a1))
+	sinD := math.Sin(f64(dAng))
+	track("max_closest_points_vs_reported_distance_rad", math.Min(e1, e2*1e30))
+	if e2 > bound*slack+3e-15 && e1 > ptol+bound/math.Max(2*sinD, 1e-7) {
+		c.Violate("EdgePairClosestPoints.realises_reported", fmt.Sprintf("distance(EdgePairClosestPoints) = %.17g rad but updateEdgePairMinDistance reports %.17g rad", f64(vangle(PA, PB)), f64(dAng)), R)
+	}
+	// symmetry under swapping the two edges, and under reversing both
+	for _, w := range [][4]s2.Point{{b0, b1, a0, a1}, {a1, a0, b1, b0}} {
+		qa, qb := s2.EdgePairClosestPoints(w[0], w[1], w[2], w[3])
+		c.Evals++
+		QA, QB := unitOf(qa.Vector), unitOf(qb.Vector)
+		es := f64(babs(bsub(vnorm2(vsub(QA, QB)), pc2)))
+		ea := f64(babs(bsub(vangle(QA, QB), vangle(PA, PB))))
+		if es > 2*bound*slack+6e-15 && ea > 2*ptol+bound/math.Max(sinD, 1e-7) {
+			c.Violate("EdgePairClosestPoints.symmetry", fmt.Sprintf("closest points of (A,B) are %.17g rad apart, of the swapped/reversed pair %.17g rad", f64(vangle(PA, PB)), f64(vangle(QA, QB))), R)
 		}
 	}
 }
